@@ -18,6 +18,10 @@ type observable struct {
 }
 
 func runC06(env *Env, rc *RunCtx) {
+	if rc.Mode == "manager" {
+		runC06Manager(env, rc)
+		return
+	}
 	t := rc.CaseTape
 	sys := env.SysTier()
 	env.Wipe()
